@@ -8,9 +8,7 @@ package trustedproxy
 // ---- C09: forwarded headers of untrusted peers are removed before the request is handled ----
 
 // the seven headers of the property
-//@ func init
-//@   props C09
-//@   ensures len(untrustedHeader) == 7 && untrustedHeader[0] == "Forwarded" && untrustedHeader[1] == "X-Forwarded-For" && untrustedHeader[2] == "X-Forwarded-Proto" && untrustedHeader[3] == "X-Forwarded-Host" && untrustedHeader[4] == "X-Forwarded-Uri" && untrustedHeader[5] == "X-Forwarded-Path" && untrustedHeader[6] == "X-Forwarded-Method"
+//@ globalinv C09: len(untrustedHeader) == 7 && untrustedHeader[0] == "Forwarded" && untrustedHeader[1] == "X-Forwarded-For" && untrustedHeader[2] == "X-Forwarded-Proto" && untrustedHeader[3] == "X-Forwarded-Host" && untrustedHeader[4] == "X-Forwarded-Uri" && untrustedHeader[5] == "X-Forwarded-Path" && untrustedHeader[6] == "X-Forwarded-Method"
 
 //@ spec holderContains(h ipHolder, ip net.IP) bool
 
@@ -48,11 +46,12 @@ package trustedproxy
 // trusted peer => the headers are passed on untouched
 //@ func New$1$1
 //@   props C09
-//@   ensures tpc.n == old(tpc.n) + 1 && serve.n == old(serve.n) + 1 && serve.arg2[old(serve.n)] == req
-//@   ensures tpc.ret0[old(tpc.n)] ==> hdel.n == old(hdel.n) && hset.n == old(hset.n) && hadd.n == old(hadd.n)
-//@   ensures !tpc.ret0[old(tpc.n)] ==> hdel.n == old(hdel.n) + len(untrustedHeader)
-//@   ensures !tpc.ret0[old(tpc.n)] ==> forall k int :: old(hdel.n) <= k && k < hdel.n ==> hdel.arg0[k] == old(req.Header) && hdel.arg1[k] == before(untrustedHeader[k - old(hdel.n)])
-//@   assert at call Handler_.ServeHTTP#1@d2507bcf.1: tpc.ret0[tpc.n-1] || hdel.n == old(hdel.n) + len(untrustedHeader)
-//@   loop 0 invariant idx + 1 <= len(untrustedHeader) && hdel.n == old(hdel.n) + idx + 1 && serve.n == old(serve.n) && tpc.n == old(tpc.n) + 1
+//@   ensures serve.n == old(serve.n) + 1 && serve.arg2[old(serve.n)] == req && tpc.n <= old(tpc.n) + 1
+//@   ensures hdel.n == old(hdel.n) ==> tpc.n == old(tpc.n) + 1 && tpc.ret0[old(tpc.n)] && hset.n == old(hset.n) && hadd.n == old(hadd.n)
+//@   ensures tpc.n == old(tpc.n) + 1 && tpc.ret0[old(tpc.n)] ==> hdel.n == old(hdel.n)
+//@   ensures hdel.n != old(hdel.n) ==> hdel.n == old(hdel.n) + len(untrustedHeader)
+//@   ensures hdel.n != old(hdel.n) ==> forall k int :: old(hdel.n) <= k && k < hdel.n ==> hdel.arg0[k] == old(req.Header) && hdel.arg1[k] == before(untrustedHeader[k - old(hdel.n)])
+//@   assert at call Handler_.ServeHTTP#1@d2507bcf.1: (tpc.n == old(tpc.n) + 1 && tpc.ret0[tpc.n-1]) || hdel.n == old(hdel.n) + len(untrustedHeader)
+//@   loop 0 invariant idx + 1 <= len(untrustedHeader) && hdel.n == old(hdel.n) + idx + 1 && serve.n == old(serve.n) && tpc.n <= old(tpc.n) + 1
 //@   loop 0 invariant forall k int :: old(hdel.n) <= k && k < hdel.n ==> hdel.arg0[k] == old(req.Header) && hdel.arg1[k] == before(untrustedHeader[k - old(hdel.n)])
 //@   ensures hdel.n == old(hdel.n) ==> pip.n == old(pip.n) + 1 && len(pip.ret0[old(pip.n)]) != 0
